@@ -25,6 +25,11 @@ RULE = (
     "constant p with Dirichlet data c and Neumann data 0 gives zero flux. K-orthogonal class: diag(div*flux) > 0 for every "
     "cell with an interior or Dirichlet face, off-diagonal <= 0; flux and bound_flux equal those of pp.Mpfa (1e-10 "
     "relative; dim >= 2); with constant K the exact flux -(K a).n_f for p = c + a.x on every face (1e-9). "
+    "Reuse class (a third of the cases): one Tpfa object discretises, then the same grid / tensor / bc objects are "
+    "edited in place (per-axis scaling or, for axis-aligned lattices, random respacing of the nodes followed by "
+    "compute_geometry(); tensor values overwritten; boundary types overwritten) and the same object discretises again, "
+    "into the same data dictionary in half of the cases; every assertion is made on the second result against the "
+    "inputs then in force (fresh pp.Mpfa as reference). "
     "Non-trivial = heterogeneous K or Dirichlet and Neumann faces both present; distinct = hash of spec."
 )
 BUDGET = {"quick": {"cases": 800, "seconds": 40}, "thorough": {"cases": 30000, "seconds": 1200}}
@@ -44,7 +49,8 @@ ASSUMPTIONS = [
     "K-orthogonal class = axis-aligned CartGrid / TensorGrid with diagonal tensor (scalar cell-wise heterogeneity allowed)",
     "MPFA agreement is checked for dim >= 2 only (in 1-d pp.Mpfa delegates to pp.Tpfa)",
 ]
-REQUIRED = {"general": 0.3, "korth": 0.3, "dim1": 0.02, "dim2": 0.2, "dim3": 0.2, "heterogeneous": 0.2, "bc-mixed": 0.3,
+REQUIRED = {"reuse": 0.15, "reuse-moved-geometry": 0.08, "reuse-changed-tensor": 0.05, "reuse-changed-bc": 0.05,
+            "reuse-same-data": 0.05, "general": 0.3, "korth": 0.3, "dim1": 0.02, "dim2": 0.2, "dim3": 0.2, "heterogeneous": 0.2, "bc-mixed": 0.3,
             "mpfa-compared": 0.2, "linear-exact": 0.1, "kind-poly": 0.01, "kind-tri": 0.015, "kind-tet": 0.015}
 
 
@@ -61,7 +67,14 @@ def _spec(draw, tier):
         grid = draw(grid_spec(dims=(1, 2, 2, 2, 3, 3, 3), kinds=("cart", "tensor"), perturb=False, rigid=False,
                               affine=False, max_n3=2, max_n=4))
         K = draw(fv.spd_spec(kinds=("diag", "diag", "iso"), het=True))
-    return {"mode": mode, "grid": grid, "K": K, "bc": draw(fv.bc_spec()), "field": draw(fv.field_spec())}
+    # reuse class: one Tpfa object discretises twice, the inputs are edited in place in between (see gen/fv.py)
+    reuse = None
+    if draw(st.integers(0, 2)) == 0:
+        kinds = ("iso", "diag", "full") if mode == "general" else ("diag", "diag", "iso")
+        reuse = draw(fv.reuse_spec(grid, tensor_kinds=kinds, het=True))
+        if mode == "korth" and reuse["move"] == "scale" and draw(st.booleans()):
+            reuse["move"] = "respace"
+    return {"mode": mode, "grid": grid, "K": K, "bc": draw(fv.bc_spec()), "field": draw(fv.field_spec()), "reuse": reuse}
 
 
 def strategy(tier):
@@ -105,13 +118,29 @@ def _structure(g, flux, bound_flux, is_dir):
 def check(spec):
     g = build_grid(spec["grid"])
     meta = grid_meta(spec["grid"])
+    import porepy as pp
+
     K, Km, fac = fv.build_tensor(spec["K"], g)
     bc, is_dir = fv.build_bc(spec["bc"], g)
-    M, _ = fv.discretize_flow(g, K, bc, "tpfa")
+    ts, bs = spec["K"], spec["bc"]
+    rs = spec.get("reuse")
+    labels = list(meta["labels"]) + [spec["mode"]]
+    if rs:
+        # first discretisation, in-place edits, second discretisation with the same Tpfa object; all assertions
+        # below are made on the second result with the inputs as they are then
+        discr = pp.Tpfa(fv.KW)
+        _, data = fv.discretize_flow(g, K, bc, "tpfa", discr=discr)
+        ts, bs, rl = fv.apply_reuse(g, K, bc, ts, bs, rs)
+        labels += rl
+        Km = fv.tensor_matrix(ts)
+        is_dir = fv.dirichlet_mask(bs, g)
+        M, _ = fv.discretize_flow(g, K, bc, "tpfa", discr=discr, data=data if rs["same_data"] else None)
+    else:
+        M, _ = fv.discretize_flow(g, K, bc, "tpfa")
     fs = spec["field"]
     flux, bflux = M["flux"], M["bound_flux"]
-    labels = list(meta["labels"]) + [spec["mode"], "K-" + spec["K"]["kind"], bc_label(is_dir, g)]
-    het = bool(spec["K"].get("het_amp"))
+    labels += ["K-" + ts["kind"], bc_label(is_dir, g)]
+    het = bool(ts.get("het_amp"))
     if het:
         labels.append("heterogeneous")
 
